@@ -224,6 +224,9 @@ struct FaultState
 extern FaultState g_faults;
 extern "C" int simkit_fault_cb(const char* site);
 
+// CPU seconds one op may burn before it is declared a hang (workloads with legitimately heavy ops raise it)
+extern int g_cpuBudgetS;
+
 // sinks
 void installSinks();
 extern long g_msgCount, g_errCount;
